@@ -72,6 +72,7 @@ structure St where
   -- ghosts
   submitted : List Nat := []             -- futures handed out by submit()
   cancelReq : List Nat := []             -- futures on which a cancel() scan section has run
+  refused : List Nat := []               -- delegates whose `cancel()` returned False to a `_cancel` (running or finished)
   submits : List (Nat × Nat × Nat) := [] -- log of delegate.submit: (future, attempt number, time)
   policyLog : List (Nat × Nat) := []     -- log of should_retry calls: (future, attempt)
   retries : List (Nat × Nat × Nat × Nat) := [] -- log of `_retry`: (future, finished delegate, time of the section, sleep_time)
@@ -185,13 +186,19 @@ def step (s : St) : Act → Option St
   | .cancelDel f b =>
       match s.cancelling.lookup f with
       | some (.scanned (some d) _) =>
-          -- `delegate.cancel()` succeeds only on a delegate that is not done yet; success makes it done (cancelled)
+          -- `delegate.cancel()`: True on a delegate that is not done yet (which makes it done, cancelled) and on one that is
+          -- already cancelled (by someone else, meanwhile); False on one that is running or finished - never on a cancelled one
           if b then
-            if d ∈ s.delDone then none
+            if d ∈ s.delCancelled then
+              some { s with cancelling := (s.cancelling.filter (fun p => p.1 != f)) ++ [(f, .delegated true)] }
+            else if d ∈ s.delDone then none
             else some { s with cancelling := (s.cancelling.filter (fun p => p.1 != f)) ++ [(f, .delegated true)],
                                delDone := s.delDone ++ [d], delCancelled := s.delCancelled ++ [d],
                                finished := s.finished ++ [(d, s.now)] }
-          else some { s with cancelling := (s.cancelling.filter (fun p => p.1 != f)) ++ [(f, .delegated false)] }
+          else
+            if d ∈ s.delCancelled then none
+            else some { s with cancelling := (s.cancelling.filter (fun p => p.1 != f)) ++ [(f, .delegated false)],
+                               refused := s.refused ++ [d] }
       | _ => none
   | .cancelEnd f =>
       match s.cancelling.lookup f with
